@@ -5,7 +5,7 @@ import numpy as np
 from .. import core, gen
 
 ID = 'C14'
-FOUNDATIONS = ['harness.foundation.pybody']   # locModel/regModel/closeHoles on `neighbours` are tied to the current bodies of the morph.py wrappers
+FOUNDATIONS = ['harness.foundation.pybody', 'harness.foundation.cscalar']   # see each foundation module's docstring
 LEVEL = 'proof'
 RULE = ('corpus; exhaustive binary scope (close_holes: every binary image of every shape up to 3x4 with the cross and the '
         'box; hitmiss: 3x3 / 1x3 / 3x1 templates over {0,1,2} against every binary image up to 3x4 - thorough all 19683+27+27 '
